@@ -19,7 +19,7 @@ ASSUMPTIONS = ["'never loops forever' is decided as 'terminates within a logical
                "a wall-clock stall without the logical budget firing is inconclusive, never a violation"]
 DECIDING_COUNTERS = ["inputs", "reached_compiler"]
 MIN_DISTINCT = 200
-SHARD_TIMEOUT = {"quick": 900, "thorough": 7200}
+SHARD_TIMEOUT = {"quick": 2400, "thorough": 14400}
 
 INC_FILES = {
     "inc1.mac": "inc1lab: .word 1, 2\n  mov #inc1lab, r0\n",
@@ -88,7 +88,7 @@ print("ENDED")
 
 def finishes_unmonitored(files, charset):
     """Third stage for an input that exceeded the logical budget twice (1x, 40x): the plain assembler in a process of its own, no
-    instrumentation, 4 GiB, 15 minutes.  True only if it came to an end by itself (success or reported failure)."""
+    instrumentation, 4 GiB, 7 minutes.  True only if it came to an end by itself (success or reported failure)."""
     import json
     import subprocess
     import sys
@@ -96,7 +96,7 @@ def finishes_unmonitored(files, charset):
     env.pop("PDPY11_VERIF", None)
     try:
         r = subprocess.run([sys.executable, "-c", _UNMONITORED, charset], input=json.dumps([[n, t] for n, t in files]), capture_output=True, text=True,
-                           timeout=900, env=env, cwd=os.path.dirname(files[0][0]) if os.path.isdir(os.path.dirname(files[0][0])) else None)
+                           timeout=420, env=env, cwd=os.path.dirname(files[0][0]) if os.path.isdir(os.path.dirname(files[0][0])) else None)
     except subprocess.TimeoutExpired:
         return False
     return r.returncode == 0 and r.stdout.strip().endswith("ENDED")
@@ -348,7 +348,7 @@ def run_one(case, cnt):
     o = asm.assemble(files, budget=budget, wall=300, handler=make_handler(case["handler"], rec, case, shown))
     o.events = rec.events
     texts = [t for _, t in files]
-    if o.cls == "nonterm" and not huge_repeat(o) and known_key(texts, o) is None and _CONFIRMED_NONTERM[0] < 2:
+    if o.cls == "nonterm" and not huge_repeat(o) and known_key(texts, o) is None and _CONFIRMED_NONTERM[0] < 1:
         # many lazily sized statements before the base is known cost O(n^3) steps: slow, but finite.  Decide with a 40x budget.
         rec = asm.Recorder()
         shown = []
@@ -362,7 +362,7 @@ def run_one(case, cnt):
         if o2.cls != "nonterm":
             cnt["slow_but_terminating"] = cnt.get("slow_but_terminating", 0) + 1
         else:
-            # (after two inputs of this shard that do not end even with the 40x budget, further ones are reported at the plain budget:
+            # (after one input of this shard that does not end with the 40x budget nor unmonitored, further ones are reported at the plain budget:
             # a tree that hangs on many inputs must not use up the shard's wall clock before anything is reported)
             _CONFIRMED_NONTERM[0] += 1
         o = o2
